@@ -25,6 +25,16 @@ type FlightOp struct {
 	Kind     string // walk clone attach open opendir create read write stat wstat clunk remove
 	Late     bool   // its file-system call returns only after Stop has been entered (else: as soon as its context is cancelled)
 	Complete bool   // not parked: it completes normally, in a burst right before the fault
+	// FailOp: when its parked file-system call is let go, it fails with the context's error, as
+	// a real file system does when cancelled: "all" = every call of the request, "clunk" = only
+	// a Clunk the session issues inside the request (the old entry of a walk in place)
+	FailOp string `json:",omitempty"`
+	// Shared (read, write, stat, wstat): the request uses the one shared open fid instead of a
+	// fid of its own, so that several requests queue behind the same fid lock
+	Shared bool `json:",omitempty"`
+	// Held (with Shared): the handler goroutine of this request is slow: it reaches the
+	// session only while Stop is inside the Clunk of the shared fid
+	Held bool `json:",omitempty"`
 }
 
 type ShutCase struct {
@@ -36,17 +46,35 @@ type ShutCase struct {
 	DupTag     int    // >0: that many further requests reuse the tag of a parked request right before the fault (each owed a duplicate-tag error the server may be unable to write)
 }
 
-var flightKinds = []string{"walk", "clone", "attach", "open", "opendir", "create", "read", "write", "stat", "wstat", "clunk", "remove"}
+var flightKinds = []string{"walk", "clone", "attach", "open", "opendir", "create", "read", "write", "stat", "wstat", "clunk", "remove", "walkinplace", "walkinplace", "stat", "read"}
 
 func GenShut(t *rapid.T) ShutCase {
 	c := ShutCase{Rendezvous: rapid.Bool().Draw(t, "rendezvous")}
 	n := rapid.IntRange(1, 6).Draw(t, "nflight")
 	for i := 0; i < n; i++ {
-		c.Flight = append(c.Flight, FlightOp{
+		f := FlightOp{
 			Kind:     rapid.SampledFrom(flightKinds).Draw(t, "kind"),
 			Late:     rapid.Bool().Draw(t, "late"),
 			Complete: rapid.IntRange(0, 2).Draw(t, "complete") == 0,
-		})
+		}
+		if !f.Complete {
+			switch rapid.IntRange(0, 3).Draw(t, "failop") {
+			case 0:
+				f.FailOp = "all"
+			case 1:
+				if f.Kind == "walkinplace" {
+					f.FailOp = "clunk"
+				}
+			}
+		}
+		switch f.Kind {
+		case "read", "write", "stat", "wstat":
+			f.Shared = rapid.Bool().Draw(t, "shared")
+			if f.Shared && !f.Complete {
+				f.Held = rapid.IntRange(0, 2).Draw(t, "held") == 0
+			}
+		}
+		c.Flight = append(c.Flight, f)
 	}
 	c.Fault = rapid.SampledFrom([]string{"readerr", "writeerr", "peerclose", "cancel"}).Draw(t, "fault")
 	c.Offset = rapid.IntRange(0, 30).Draw(t, "offset")
@@ -76,6 +104,10 @@ type shutHandler struct {
 	stopSeen chan struct{}
 	once     sync.Once
 	nextIdx  int
+	// requests with these tags... (keyed by the request's fid and kind) wait for gate before entering the session
+	heldKinds map[string]bool
+	gate      chan struct{}
+	passed    int32
 }
 
 func (h *shutHandler) Handle(ctx context.Context, msg p9p.Message) (p9p.Message, error) {
@@ -110,7 +142,15 @@ func (h *shutHandler) Handle(ctx context.Context, msg p9p.Message) (p9p.Message,
 	rec.key = key
 	h.mu.Lock()
 	h.ctxs = append(h.ctxs, rec)
+	held := h.heldKinds != nil && key == sharedFid && h.heldKinds[fmt.Sprintf("%T", msg)]
 	h.mu.Unlock()
+	if held {
+		select {
+		case <-h.gate:
+		case <-time.After(3 * shutBound):
+		}
+		atomic.AddInt32(&h.passed, 1)
+	}
 	return h.inner.Handle(context.WithValue(ctx, reqKey{}, key), msg)
 }
 
@@ -122,12 +162,29 @@ func (h *shutHandler) Stop(err error) error {
 
 const shutBound = 10 * time.Second
 
+const sharedFid = 50
+
 // RunShut is the C11 oracle for one fault scenario.
 func RunShut(c ShutCase) harn.Result {
 	fs := mockfs.New()
 	fs.Populate()
 	sess := p9p.SFileSys(fs)
-	h := &shutHandler{inner: p9p.SSession(sess), stopSeen: make(chan struct{})}
+	h := &shutHandler{inner: p9p.SSession(sess), stopSeen: make(chan struct{}), gate: make(chan struct{})}
+	nHeld := 0
+	for _, f := range c.Flight {
+		if f.Held && f.Shared && !f.Complete {
+			if h.heldKinds == nil {
+				h.heldKinds = map[string]bool{}
+			}
+			k := map[string]string{"read": "p9p.MessageTread", "write": "p9p.MessageTwrite", "stat": "p9p.MessageTstat", "wstat": "p9p.MessageTwstat"}[f.Kind]
+			if !h.heldKinds[k] {
+				nHeld++
+			}
+			h.heldKinds[k] = true
+		}
+	}
+	var gateOnce sync.Once
+	var sharedHandle int32 // id of the mock handle bound to the shared fid
 	a, b := memconn.NewPair(memconn.Options{Rendezvous: c.Rendezvous})
 	ctx, cancel := context.WithCancel(context.Background())
 	defer cancel()
@@ -142,16 +199,26 @@ func RunShut(c ShutCase) harn.Result {
 	passFids := map[uint32]bool{} // fids whose operations complete normally (burst)
 	var pfMu sync.Mutex
 	lateFids := map[uint32]bool{}
+	failOps := map[uint32]string{}
 	fs.Hook = func(call *mockfs.Call) *mockfs.Fault {
 		if atomic.LoadInt32(&phase) == 0 || call.Ctx == nil {
 			return nil
 		}
 		if _, ok := call.Ctx.(p9p.CancelledCtxt); ok {
-			return nil // Stop's own clunks
+			// Stop's own clunks.  If slow handlers are waiting for it: let them run into the
+			// shared fid's lock now, while Stop is inside this fid's Clunk
+			if nHeld > 0 && call.Op == "clunk" && call.Handle != nil && int32(call.Handle.ID) == atomic.LoadInt32(&sharedHandle) {
+				gateOnce.Do(func() { close(h.gate) })
+				for i := 0; i < 500 && int(atomic.LoadInt32(&h.passed)) < nHeld; i++ {
+					time.Sleep(100 * time.Microsecond)
+				}
+				time.Sleep(2 * time.Millisecond)
+			}
+			return nil
 		}
 		fid, _ := call.Ctx.Value(reqKey{}).(uint32)
 		pfMu.Lock()
-		pass, late := passFids[fid], lateFids[fid]
+		pass, late, failOp := passFids[fid], lateFids[fid], failOps[fid]
 		pfMu.Unlock()
 		if pass {
 			return nil
@@ -167,6 +234,13 @@ func RunShut(c ShutCase) harn.Result {
 			case <-h.stopSeen:
 			case <-time.After(3 * shutBound):
 			}
+		}
+		if failOp == "all" || (failOp != "" && failOp == call.Op) {
+			err := call.Ctx.Err()
+			if err == nil {
+				err = mockfs.ErrInjected
+			}
+			return &mockfs.Fault{Err: err}
 		}
 		return nil
 	}
@@ -205,6 +279,8 @@ func RunShut(c ShutCase) harn.Result {
 	prefix := []refwire.Msg{
 		{Kind: refwire.Tattach, Fid: 0, Afid: ^uint32(0), Uname: harn.B("u")},
 		{Kind: refwire.Twalk, Fid: 0, Newfid: 1, Wnames: B("a")},
+		{Kind: refwire.Twalk, Fid: 0, Newfid: sharedFid, Wnames: B("a", "x")},
+		{Kind: refwire.Topen, Fid: sharedFid, Mode: 2},
 	}
 	// in-flight requests.  Each has a fid of its own (its key) so that the hook
 	// can tell them apart; walks and clones share their source fid on purpose
@@ -219,7 +295,26 @@ func RunShut(c ShutCase) harn.Result {
 		}
 		var m refwire.Msg
 		key := own
+		if f.Shared {
+			switch f.Kind {
+			case "read":
+				m = refwire.Msg{Kind: refwire.Tread, Fid: sharedFid, Count: 16}
+			case "write":
+				m = refwire.Msg{Kind: refwire.Twrite, Fid: sharedFid, Data: harn.B("w")}
+			case "stat":
+				m = refwire.Msg{Kind: refwire.Tstat, Fid: sharedFid}
+			case "wstat":
+				m = refwire.Msg{Kind: refwire.Twstat, Fid: sharedFid, Stat: refwire.D{Mode: 0600, Length: ^uint64(0), Atime: ^uint32(0), Mtime: ^uint32(0)}}
+			}
+			m.Tag = uint16(0x100 + i)
+			reqs = append(reqs, m)
+			keys = append(keys, sharedFid)
+			continue
+		}
 		switch f.Kind {
+		case "walkinplace":
+			bind("a")
+			m = refwire.Msg{Kind: refwire.Twalk, Fid: own, Newfid: own, Wnames: B("d")}
 		case "walk":
 			m, key = refwire.Msg{Kind: refwire.Twalk, Fid: 1, Newfid: nf, Wnames: B("d")}, nf
 		case "clone":
@@ -265,6 +360,15 @@ func RunShut(c ShutCase) harn.Result {
 			return fail("HARNESS prefix: %v", err)
 		}
 	}
+	if tab, ok := p9p.VerifFidTable(sess); ok {
+		for _, te := range tab {
+			if uint32(te.Fid) == sharedFid {
+				if hh, ok := te.Ent.(*mockfs.Handle); ok {
+					atomic.StoreInt32(&sharedHandle, int32(hh.ID))
+				}
+			}
+		}
+	}
 	atomic.StoreInt32(&phase, 1)
 
 	// which fids pass / are late: decided per request through the request's context value
@@ -285,6 +389,9 @@ func RunShut(c ShutCase) harn.Result {
 		}
 		pfMu.Lock()
 		lateFids[keys[i]] = c.Flight[i].Late
+		if c.Flight[i].FailOp != "" {
+			failOps[keys[i]] = c.Flight[i].FailOp
+		}
 		pfMu.Unlock()
 		mm := m
 		if err := p.Send(&mm); err != nil {
@@ -439,6 +546,15 @@ func RunShut(c ShutCase) harn.Result {
 	for i, f := range c.Flight {
 		_ = i
 		if !f.Complete {
+			if f.FailOp != "" {
+				res.Classes = append(res.Classes, "fs_call_fails_when_cancelled")
+			}
+			if f.Shared {
+				res.Classes = append(res.Classes, "inflight_on_shared_open_fid")
+			}
+			if f.Held && f.Shared && atomic.LoadInt32(&h.passed) > 0 {
+				res.Classes = append(res.Classes, "slow_handler_meets_stop")
+			}
 			res.Classes = append(res.Classes, "inflight_"+f.Kind, c.Fault+"×"+f.Kind)
 		} else {
 			res.Classes = append(res.Classes, "completing_"+f.Kind)
@@ -475,6 +591,15 @@ func describeFlight(fl []FlightOp) string {
 			x += "(completing)"
 		} else if f.Late {
 			x += "(returns after stop)"
+		}
+		if f.FailOp != "" && !f.Complete {
+			x += "(fs " + f.FailOp + " fails)"
+		}
+		if f.Shared {
+			x += "(shared fid)"
+		}
+		if f.Held && f.Shared && !f.Complete {
+			x += "(handler reaches the session during Stop)"
 		}
 		s = append(s, x)
 	}
